@@ -29,26 +29,48 @@ var durations = map[string]int64{"Nanosecond": 1, "Microsecond": 1e3, "Milliseco
 
 type pkgConsts map[string]ast.Expr
 
+// load collects the package-level const/var initialisers of the named file and then of every other non-test file of
+// the same directory (= the same package): a constant that a refactor moves to a sibling file is still found (the
+// named file wins when a name is declared twice, e.g. in a build-tagged twin). Found by benign round 4.
 func load(path string) (pkgConsts, error) {
-	fset := token.NewFileSet()
-	f, err := parser.ParseFile(fset, path, nil, 0)
-	if err != nil {
-		return nil, err
-	}
 	out := pkgConsts{}
-	for _, d := range f.Decls {
-		gd, ok := d.(*ast.GenDecl)
-		if !ok || (gd.Tok != token.CONST && gd.Tok != token.VAR) {
-			continue
+	add := func(file string, must bool) error {
+		fset := token.NewFileSet()
+		f, err := parser.ParseFile(fset, file, nil, 0)
+		if err != nil {
+			if must {
+				return err
+			}
+			return nil
 		}
-		for _, s := range gd.Specs {
-			vs := s.(*ast.ValueSpec)
-			for i, n := range vs.Names {
-				if i < len(vs.Values) {
-					out[n.Name] = vs.Values[i]
+		for _, d := range f.Decls {
+			gd, ok := d.(*ast.GenDecl)
+			if !ok || (gd.Tok != token.CONST && gd.Tok != token.VAR) {
+				continue
+			}
+			for _, s := range gd.Specs {
+				vs := s.(*ast.ValueSpec)
+				for i, n := range vs.Names {
+					if _, dup := out[n.Name]; !dup && i < len(vs.Values) {
+						out[n.Name] = vs.Values[i]
+					}
 				}
 			}
 		}
+		return nil
+	}
+	if _, err := os.Stat(path); err == nil {
+		if err := add(path, true); err != nil {
+			return nil, err
+		}
+	}
+	sibs, _ := filepath.Glob(filepath.Join(filepath.Dir(path), "*.go"))
+	sort.Strings(sibs)
+	for _, f := range sibs {
+		if f == path || strings.HasSuffix(f, "_test.go") {
+			continue
+		}
+		_ = add(f, false)
 	}
 	return out, nil
 }
